@@ -85,3 +85,58 @@ pub proof fn lemma_split_inside_separator(a: Seq<u8>, b: Seq<u8>)
 //    the buffer stays in front of it
       r is Ok && final(buf).data@ == old(buf).data@ + as_ref_view::<T, str>(&line).spec_bytes() + seq![10u8, 10u8]
 //@ end
+
+//@ fn cln_plugin::codec::JsonCodec::decode
+//@ returns r
+//@ implicit [C06,C17]
+//@ ensures#nothing_to_decode_leaves_the_buffer [C17]
+      no_sep(old(buf).data@) ==> (r is Ok && r->Ok_0 is None && final(buf).data@ == old(buf).data@)
+//@ ensures#decodes_exactly_the_first_message_as_one_json_value [C17]
+//    each frame is consumed exactly once and yields the value its text parses to -- or an error,
+//    never a silent skip
+      forall|p: int| first_sep(old(buf).data@, p) ==> (
+          final(buf).data@ == old(buf).data@.skip(p + 2)
+          && match utf8_spec(old(buf).data@.take(p)) {
+                 Some(m) => match crate::serde_json::json_parse(m) {
+                     Some(v) => r is Ok && r->Ok_0 == Some(v),
+                     // a frame that is not JSON is no message: an error (as the code does) or nothing,
+                     // never a made-up value
+                     None => r is Err || r->Ok_0 is None,
+                 },
+                 None => r is Err,
+             })
+//@ end
+
+//@ fn cln_plugin::codec::JsonCodec::encode
+//@ returns r
+//@ implicit [C06,C17]
+//@ ensures#one_frame_is_appended_and_it_ends_in_the_blank_line [C17]
+//    what was in the buffer stays in front; the appended frame ends with the separator
+      r is Ok && final(buf).data@.len() >= old(buf).data@.len() + 2
+      && final(buf).data@.take(old(buf).data@.len() as int) == old(buf).data@
+      && final(buf).data@.skip(final(buf).data@.len() - 2) == seq![10u8, 10u8]
+//@ ensures#exactly_one_document_is_written [C17]
+//    the frame is the rendering of ONE value followed by the separator (not two frames, not a part)
+      exists|v: Value, s: String| s@ == #[trigger] crate::serde_json::json_text(v)
+          && final(buf).data@ == old(buf).data@ + (#[trigger] as_ref_view::<String, str>(&s)).spec_bytes() + seq![10u8, 10u8]
+//@ end
+
+//@ fn cln_plugin::codec::JsonRpcCodec::decode
+//@ returns r
+//@ implicit [C06,C17]
+//@ ensures#nothing_to_decode_leaves_the_buffer [C17]
+      no_sep(old(buf).data@) ==> (r is Ok && r->Ok_0 is None && final(buf).data@ == old(buf).data@)
+//@ ensures#decodes_exactly_the_first_message_as_one_jsonrpc_message [C17]
+      forall|p: int| first_sep(old(buf).data@, p) ==> (
+          final(buf).data@ == old(buf).data@.skip(p + 2)
+          && match utf8_spec(old(buf).data@.take(p)) {
+                 Some(m) => match crate::serde_json::json_parse(m) {
+                     Some(v) => match crate::serde_json::from_value_spec::<JsonRpc<Notification, Request>>(v) {
+                         Some(q) => r is Ok && r->Ok_0 == Some(q),
+                         None => r is Err || r->Ok_0 is None,
+                     },
+                     None => r is Err || r->Ok_0 is None,
+                 },
+                 None => r is Err,
+             })
+//@ end
